@@ -29,6 +29,7 @@ def decl_line(st, k):
 def render_file(states, base):
     lines = ["module mdecl", "  implicit none", "  type :: t", "    integer :: c", "  end type t", "contains"]
     where = []
+    ptr_inits = set()
     for i, st in enumerate(states):
         k = base + i
         name = "e%d" % k
@@ -39,6 +40,17 @@ def render_file(states, base):
             if st["doc"] == "beforeBlank":
                 lines.append("")
         dl = "    " + decl_line(st, k)
+        second = st["deco"] == "none" and st["doc"] == "none" and not st["dummy"]
+        if second:
+            A = set(st["attrs"])
+            ptr_init = "POINTER" in A and st["sel"] in ("none", "(4)", "(kind=8)", "*8") and not (A & {"DIMENSION(:)", "CONTIGUOUS"}) \
+                and st["ty"] not in ("CLASS(t)",)
+            if ptr_init:
+                ptr_inits.add(k)
+                head = st["ty"] + ("" if st["sel"] == "none" else st["sel"])
+                lines.append("    %s, TARGET, SAVE :: tg%d" % (head, k))
+                dl += " => tg%d" % k
+            dl += ", x%d" % k
         if st["doc"] in ("trailing", "trailingComment"):
             dl += " !< doc own %s" % name
         lines.append(dl)
@@ -50,7 +62,7 @@ def render_file(states, base):
         lines.append("    integer :: nb%d !< doc nb%d" % (k, k))
         nbl = len(lines) - 1
         lines.append("  end subroutine s%d" % k)
-        where.append({"k": k, "hdr": hdr, "decl": dln, "nb": nbl})
+        where.append({"k": k, "hdr": hdr, "decl": dln, "nb": nbl, "second": second, "ptrinit": k in ptr_inits})
     lines.append("end module mdecl")
     return lines, where
 
@@ -98,6 +110,7 @@ def parse_decl(line):
     left, right = line.split("::", 1)
     items = split_top(left)
     name, value = right.strip(), None
+    right = right.split("=>")[0]
     if "=" in right and not right.strip().startswith("="):
         name, value = right.split("=", 1)
     return {"type": norm(items[0]), "attrs": {norm(x) for x in items[1:] if x.strip()}, "name": norm(name), "value": None if value is None else norm(value)}
@@ -128,6 +141,8 @@ def check_file(job):
             col = lines[w["decl"]].index("::") + 3 + 1
             r = adapter.result_of(adapter.request(s, c, "textDocument/hover", adapter.posparams(d, "m.f90", w["decl"], col)))
             tags = decl_tags(st)
+            if w.get("ptrinit"):
+                tags = tags | {"deco:ptrinit"}
             if not r or "contents" not in r:
                 bad.append((tags | {"hover:none"}, {"decl": lines[w["decl"]]}))
                 continue
@@ -150,6 +165,15 @@ def check_file(job):
                     bad.append((tags | {"doc:missingOrWrong"}, {"decl": lines[w["decl"]], "expected_doc": own, "observed_doc": doc}))
                 if exp["doc"] == "none" and doc:
                     bad.append((tags | {"doc:unexpected"}, {"decl": lines[w["decl"]], "observed_doc": doc}))
+            # a second entity of the same statement restates the statement's type and attributes, nothing of the first's
+            if w.get("second"):
+                col2 = lines[w["decl"]].index(", x%d" % k) + 3
+                rx = adapter.result_of(adapter.request(s, c, "textDocument/hover", adapter.posparams(d, "m.f90", w["decl"], col2)))
+                codex, _dx = parse_hover(rx["contents"]["value"]) if rx and "contents" in rx else ([], "")
+                gx = parse_decl(codex[0]) if codex else None
+                if gx is None or gx["type"] != exp["type"] or gx["attrs"] != exp["attrs"] or gx["name"] != norm("x%d" % k) or gx["value"]:
+                    bad.append((tags | {"hover:secondEntity"}, {"decl": lines[w["decl"]], "expected_type": exp["type"], "expected_attrs": sorted(exp["attrs"]),
+                                                               "observed": None if gx is None else {k2: (sorted(v) if isinstance(v, set) else v) for k2, v in gx.items()}}))
             # the neighbour keeps its own documentation and gets no other
             r2 = adapter.result_of(adapter.request(s, c, "textDocument/hover", adapter.posparams(d, "m.f90", w["nb"], lines[w["nb"]].index("nb") + 1)))
             _c2, doc2 = parse_hover(r2["contents"]["value"]) if r2 and "contents" in r2 else ([], "")
@@ -168,7 +192,7 @@ def check_file(job):
     return [(t, dict(x, file=lines if len(lines) < 60 else None)) for t, x in bad]
 
 
-ARGTXT = {"plain": "x1", "nested": "f(1, 2)", "string": "'a,b'", "kw2": "p2=y", "kw3": "p3=z"}
+ARGTXT = {"plain": "x1", "nested": "f(1, 2)", "string": "'stop! a,b'", "kw2": "p2=y", "kw3": "p3=z"}
 
 
 def check_calls(states):
@@ -192,6 +216,19 @@ def check_calls(states):
             cols = {off + 3, off + len(a)}
         lines.append(text)
         sites.append((len(lines) - 1, sorted(cols), st))
+        # the same call with every argument on its own continuation line; the cursor is on the line of argument i
+        if len(args) > 1:
+            lines.append("    call tgt(" + args[0] + ", &")
+            first = len(lines) - 1
+            for j, a2 in enumerate(args[1:], start=1):
+                lines.append("             " + a2 + (", &" if j < len(args) - 1 else ")"))
+            ln_i = first + i
+            start = len("    call tgt(") if i == 0 else len("             ")
+            a_i = args[i]
+            cols2 = {start + len(a_i)} if st["call"][i] in ("kw2", "kw3") else {start + 1 if len(a_i) > 1 and st["call"][i] == "plain" else start + len(a_i), start + len(a_i)}
+            st2 = dict(st)
+            st2["_multiline"] = True
+            sites.append((ln_i, sorted(cols2), st2))
     lines += ["  end subroutine caller", "end module mc"]
     d = adapter.mkws({"c.f90": "\n".join(lines) + "\n"})
     bad = []
@@ -202,6 +239,8 @@ def check_calls(states):
             for col in cols:
                 r = adapter.result_of(adapter.request(s, c, "textDocument/signatureHelp", adapter.posparams(d, "c.f90", ln, col)))
                 tags = {"call:" + "+".join(st["call"]), "cursorArg:%d" % st["cursor"], "argKind:" + st["call"][st["cursor"] - 1]}
+                if st.get("_multiline"):
+                    tags.add("layout:continuationLines")
                 if not r or not r.get("signatures"):
                     bad.append((tags | {"sig:none"}, {"line": lines[ln], "col": col}))
                     continue
